@@ -1,5 +1,6 @@
 """C20 - work is linear in DAG size and independent of nesting depth."""
 import io
+import signal
 import json
 import os
 import random
@@ -173,15 +174,50 @@ def root_key(kind, g, opname):
 def rec_key(opname, famname, tb):
     """Stable key of a RecursionError: the known accessor defect is recognised by the frames."""
     frames = traceback.extract_tb(tb)
-    tail = [f.name for f in frames[-12:]]
-    if tail and all(n == "bv_width" for n in tail[-8:]) and "ite_then" in famname:
+    tail = [f.name for f in frames[-40:]]
+    if len(tail) >= 20 and sum(1 for n in tail[:-2] if n == "bv_width") >= len(tail) - 4 and "ite_then" in famname:
         return "recursion:fnode.bv_width:ite-then-chain"
     return "recursion:%s:%s:%s" % (opname, famname, tail[-1] if tail else "?")
 
 
+def dag_size(f):
+    """(distinct nodes, edges) of an FNode DAG, own iterative traversal."""
+    seen, edges, stack = set(), 0, [f]
+    while stack:
+        x = stack.pop()
+        if x in seen:
+            continue
+        seen.add(x)
+        a = x.args()
+        edges += len(a)
+        stack.extend(a)
+    return len(seen), edges
+
+
+class _Alarm(object):
+    """Safety net: an operation that runs longer than `secs` is aborted (WorkExceeded)."""
+
+    def __init__(self, secs):
+        self.secs = secs
+
+    def _fire(self, *a):
+        raise WorkExceeded("no result after %d s" % self.secs)
+
+    def __enter__(self):
+        self.old = signal.signal(signal.SIGALRM, self._fire)
+        signal.alarm(self.secs)
+
+    def __exit__(self, *a):
+        signal.alarm(0)
+        signal.signal(signal.SIGALRM, self.old)
+
+
 class Runner(object):
-    def __init__(self, chk, tier):
-        self.chk = chk
+    def __init__(self, tier):
+        self.blown = set()
+        self.viol = []        # (replay dict, key)
+        self.counts = []
+        self.meta_disagree = []
         self.tier = tier
         self.rows = []        # Coq cases
         self.meta = []        # description of each Coq case
@@ -191,7 +227,7 @@ class Runner(object):
 
     def violation(self, rep, key):
         self.nviol += 1
-        self.chk.violation(rep, key=key)
+        self.viol.append((rep, key))
 
     def skip(self, what):
         self.skipped[what] = self.skipped.get(what, 0) + 1
@@ -218,11 +254,12 @@ class Runner(object):
             import pysmt.environment as pe
             pe.push_env(env)
             try:
-                if mid is not None and model and opname in TWO_WALK_OPS:
-                    w.walk(mid)
-                    walks.append((mid, list(tap.log), tap.pops))
-                    tap.reset()
-                res = call(w, env, g)
+                with _Alarm(30 + (len(table) + edges) // 4000):
+                    if mid is not None and model and opname in TWO_WALK_OPS:
+                        w.walk(mid)
+                        walks.append((mid, list(tap.log), tap.pops))
+                        tap.reset()
+                    res = call(w, env, g)
             finally:
                 pe.pop_env()
         except RecursionError:
@@ -234,18 +271,21 @@ class Runner(object):
                            key=rec_key(opname, famname, tb))
             return None
         except WorkExceeded as ex:
+            self.blown.add((opname, famname, mode))
             self.violation({"kind": "input", "what": "%s: %s on a DAG with %d keys and %d edges (family %s %s(%d))"
                             % (opname, ex, len(table), edges, famname, mode, n), "repro": replay,
-                            "expected": "at most 2*(1+edges) loop iterations (theorem C20_pops_linear)"},
+                            "expected": "at most 2*(1+edges) loop iterations (theorem C20_pops_linear) and a result in time linear in the DAG"},
                            key="work:%s:%s:%s" % (opname, famname, mode))
             return None
         except (NotImplementedError, AssertionError) as ex:
             self.skip("%s on %s: %s" % (opname, famname, type(ex).__name__))
             return None
         dt = time.time() - t0
-        self.chk.count((opname, famname, mode, n))
+        self.counts.append((opname, famname, mode, n))
         self.depth_hist[(mode, n)] = self.depth_hist.get((mode, n), 0) + 1
-        calls, pops = len(tap.log), tap.pops
+        self.depth_hist[(mode, n, opname)] = self.depth_hist.get((mode, n, opname), 0) + 1
+        calls, pops = len(tap.log) + sum(len(lg) for _, lg, _ in walks), tap.pops
+        all_log = [k for _, lg, _ in walks for k in lg] + list(tap.log)
         distinct = distinct_subformulas(g)
         # property-level oracle (independent of the model): bounded visits per distinct sub-formula
         if calls > K * distinct + 2:
@@ -253,10 +293,20 @@ class Runner(object):
                             "(family %s %s(%d)); at most %d per sub-formula are expected" % (opname, calls, distinct, famname, mode, n, K),
                             "repro": replay, "observed": calls, "expected": "<= %d" % (K * distinct + 2)},
                            key="count:%s:%s:%s" % (opname, famname, mode))
-        if len(set(tap.log)) != calls:
+        if len(set(all_log)) != calls:
             self.violation({"kind": "input", "what": "%s invoked a callback more than once on the same key (family %s %s(%d)): %d calls, %d keys"
-                            % (opname, famname, mode, n, calls, len(set(tap.log))), "repro": replay},
+                            % (opname, famname, mode, n, calls, len(set(all_log))), "repro": replay},
                            key="dup:%s:%s:%s" % (opname, famname, mode))
+        # size of the produced formula: linear in the input DAG, not in its tree expansion
+        if hasattr(res, "node_id") and mode == "shared":
+            rn, re_ = dag_size(res)
+            if rn + re_ > 16 * (distinct + edges) + 64:
+                self.blown.add((opname, famname, mode))
+                self.violation({"kind": "input", "what": "%s returns a formula with %d nodes and %d argument slots for an input DAG with %d distinct "
+                                "sub-formulas (family %s: x_(i+1) = op(x_i, x_i), n = %d): the work follows the tree expansion 2^n, not the DAG"
+                                % (opname, rn, re_, distinct, famname, n), "repro": replay,
+                                "expected": "result DAG size linear in the input DAG size", "observed": [rn, re_]},
+                               key="blowup:%s:%s:%s" % (opname, famname, mode))
         disagreement = None
         if calls != len(table):
             disagreement = "callback count %d differs from the theorem's count %d (distinct reachable keys)" % (calls, len(table))
@@ -283,8 +333,6 @@ class Runner(object):
             self.meta_disagree.append({"op": opname, "family": famname, "mode": mode, "n": n, "what": disagreement, "repro": replay})
         return {"calls": calls, "pops": pops, "keys": len(table), "time": dt, "result": res}
 
-    meta_disagree = []
-
     # -- type checking at construction -------------------------------------------------------
     def build_tapped(self, env, fam, famname, mode, n, model=False):
         """Builds the family with env.stc tapped: every create_node is one walk of the type
@@ -296,6 +344,7 @@ class Runner(object):
 
         def create_node(node_type, args, payload=None):
             start, p0 = len(tap.log), tap.pops
+            tap.limit = tap.pops + 8 * (1 + len(args)) + 64      # theorem: 2 * (1 + arity)
             node = orig_create(node_type=node_type, args=args, payload=payload)
             created.append((node, tap.log[start:], tap.pops - p0))
             return node
@@ -303,8 +352,11 @@ class Runner(object):
         n_before = len(mgr.formulae)
         replay = "harness.c20.replay_one(%r, %r, %d, 'typecheck')" % (famname, mode, n)
         try:
-            f = build(env, fam, mode, n)
-            g = boolify(env, fam, f)
+            with _Alarm(120):
+                f = build(env, fam, mode, n)
+                g = boolify(env, fam, f)
+                if model:        # re-creation of existing nodes: early memo hit, no loop iteration
+                    build(env, fam, mode, n)
         except RecursionError:
             tb = sys.exc_info()[2]
             self.violation({"kind": "input", "what": "RecursionError under the default recursion limit while CONSTRUCTING family %s %s(%d)"
@@ -312,12 +364,18 @@ class Runner(object):
                             "observed": "RecursionError", "innermost_frames": [x.name for x in traceback.extract_tb(tb)[-6:]]},
                            key=rec_key("construct", famname, tb))
             return None
+        except WorkExceeded as ex:
+            self.violation({"kind": "input", "what": "type checking ONE new node at construction ran %s (family %s %s(%d)): the memoised types of the "
+                            "children are not reused" % (ex, famname, mode, n), "repro": replay,
+                            "expected": "<= 2*(1+arity) loop iterations and one callback per created node (theorem C20_typecheck_at_creation)"},
+                           key="work:typecheck:%s:%s" % (famname, mode))
+            return None
         finally:
             del mgr.create_node
             tap.remove()
         new_nodes = len(mgr.formulae) - n_before
         total = sum(len(lg) for _, lg, _ in created)
-        self.chk.count(("typecheck", famname, mode, n))
+        self.counts.append(("typecheck", famname, mode, n))
         worst = max([len(lg) for _, lg, _ in created] + [0])
         worst_pops = max([pp - 2 * (1 + len(nd.args())) for nd, _, pp in created] + [0])
         if total > new_nodes + 2 or worst > 1:
@@ -376,7 +434,7 @@ class Runner(object):
             return
         finally:
             del mgr.create_node
-        self.chk.count(("parse", famname, mode, n))
+        self.counts.append(("parse", famname, mode, n))
         distinct = distinct_subformulas(g)
         if count[0] > 4 * distinct + 64:
             self.violation({"kind": "input", "what": "re-parsing the DAG-printed text created %d nodes for a formula with %d distinct sub-formulas "
@@ -387,6 +445,18 @@ class Runner(object):
 
 
 def measure_family(R, famname, fam, mode, n, ops, model, budget_end, only_fast=False, fast_ops=None):
+    """The cyclic garbage collector is switched off while a deep chain is measured: its full
+    passes over millions of live tuples dominate the time otherwise (nothing here is cyclic)."""
+    import gc
+    if n >= 20000:
+        gc.disable()
+    try:
+        return _measure_family(R, famname, fam, mode, n, ops, model, budget_end, only_fast, fast_ops)
+    finally:
+        gc.enable()
+
+
+def _measure_family(R, famname, fam, mode, n, ops, model, budget_end, only_fast=False, fast_ops=None):
     from pysmt.environment import Environment
     env = Environment()
     g = R.build_tapped(env, fam, famname, mode, n, model=model)
@@ -404,6 +474,8 @@ def measure_family(R, famname, fam, mode, n, ops, model, budget_end, only_fast=F
     for op in ops:
         if only_fast and op[0] not in fast_ops:
             continue
+        if (op[0], famname, mode) in R.blown:
+            continue
         if time.time() > budget_end:
             R.skip("time budget: %s %s(%d) %s not run" % (famname, mode, n, op[0]))
             continue
@@ -412,20 +484,56 @@ def measure_family(R, famname, fam, mode, n, ops, model, budget_end, only_fast=F
             times[op[0]] = r["time"]
             if op[0] == "dagprint":
                 text = r["result"]
-    if text is not None and time.time() <= budget_end:
-        R.parse_back(env, famname, mode, n, g, text)
+    try:
+        with _Alarm(60):
+            if text is not None and time.time() <= budget_end:
+                R.parse_back(env, famname, mode, n, g, text)
+    except WorkExceeded as ex:
+        R.violation({"kind": "input", "what": "re-parsing the DAG-printed text of family %s %s(%d): %s" % (famname, mode, n, ex),
+                     "repro": "harness.c20.replay_one(%r, %r, %d, 'parse')" % (famname, mode, n)}, key="work:parse:%s:%s" % (famname, mode))
     # get_logic end to end (environment singletons), recursion only
     try:
         import pysmt.oracles
         if not only_fast:
-            pysmt.oracles.get_logic(g, env)
+            with _Alarm(60):
+                pysmt.oracles.get_logic(g, env)
     except RecursionError:
         R.violation({"kind": "input", "what": "RecursionError in get_logic on family %s %s(%d)" % (famname, mode, n),
                      "repro": "harness.c20.replay_one(%r, %r, %d, 'get_logic')" % (famname, mode, n)},
                     key="recursion:get_logic:%s" % famname)
+    except WorkExceeded as ex:
+        R.violation({"kind": "input", "what": "get_logic on family %s %s(%d): %s" % (famname, mode, n, ex),
+                     "repro": "harness.c20.replay_one(%r, %r, %d, 'get_logic')" % (famname, mode, n)}, key="work:get_logic:%s:%s" % (famname, mode))
     except Exception:
         pass
     return times
+
+
+def family_job(arg):
+    """Everything that is measured for one operator family (runs in a worker process)."""
+    nm, tier, small_chain, small_shared = arg
+    import warnings
+    warnings.simplefilter("ignore")
+    assert sys.getrecursionlimit() == 1000
+    R = Runner(tier)
+    fam = _families()[nm]
+    ops = _ops()
+    budget_end = time.time() + (75 if tier == "quick" else 700)
+    # 1. model-sized cases (every operation, both shapes): exact order / iterations / stack / memo
+    measure_family(R, nm, fam, "chain", small_chain, ops, True, budget_end)
+    measure_family(R, nm, fam, "shared", small_shared, ops, True, budget_end)
+    # 2. exponential tree size over n DAG nodes (16 first: detects work that follows the tree)
+    measure_family(R, nm, fam, "shared", 16, ops, False, budget_end)
+    measure_family(R, nm, fam, "shared", 40 if tier == "quick" else 64, ops, False, budget_end)
+    # 3. chains deeper than the recursion limit; deeper still for the operations that are fast
+    times = measure_family(R, nm, fam, "chain", 1500, ops, False, budget_end)
+    fast = set(k for k, v in times.items() if v < 0.12 and k not in QUADRATIC_TIME)
+    measure_family(R, nm, fam, "chain", 20000, ops, False, budget_end, only_fast=True, fast_ops=fast)
+    if tier == "thorough" and nm in ("and", "not_and", "plus", "bvadd", "ite_int", "ite_bv_else", "store", "uf"):
+        measure_family(R, nm, fam, "chain", 200000, ops, False, budget_end, only_fast=True,
+                       fast_ops=fast & set(["free_vars", "qf", "types", "theory", "size_tree", "size_depth", "size_leaves", "atoms", "aig"]))
+    return {"rows": R.rows, "meta": R.meta, "disagree": R.meta_disagree, "skipped": R.skipped,
+            "depth_hist": R.depth_hist, "counts": R.counts, "viol": R.viol}
 
 
 def run(tier, only=None):
@@ -433,48 +541,29 @@ def run(tier, only=None):
     rnd = random.Random(chk.seed)
     assert sys.getrecursionlimit() == 1000, "C20 must run under the default recursion limit"
     ok = chk.prove()
-    import warnings
-    warnings.simplefilter("ignore")
-    R = Runner(chk, tier)
-    R.meta_disagree = []
-    fams = _families()
-    ops = _ops()
-    names = sorted(fams)
+    names = sorted(_families())
     if only:
         names = [x for x in names if x in only]
-    t_start = time.time()
-    budget_end = t_start + (95 if tier == "quick" else 840)
-    # 1. model-sized cases (every operation x every family x both shapes): exact order / pops / stack / memo
     small_chain = 24 + rnd.randrange(8)
     small_shared = 7 + rnd.randrange(4)
-    for nm in names:
-        measure_family(R, nm, fams[nm], "chain", small_chain, ops, True, budget_end)
-        measure_family(R, nm, fams[nm], "shared", small_shared, ops, True, budget_end)
-    chk.note("model-sized cases: %d" % len(R.rows))
-    # 2. exponential tree size over n DAG nodes
-    n_shared = 40 if tier == "quick" else 64
-    for nm in names:
-        measure_family(R, nm, fams[nm], "shared", n_shared, ops, False, budget_end)
-    # 3. chains deeper than the recursion limit; deeper still for the operations that are fast
-    base = 1500
-    fast = {}
-    for nm in names:
-        times = measure_family(R, nm, fams[nm], "chain", base, ops, False, budget_end)
-        fast[nm] = set(k for k, v in times.items() if v < 0.12 and k not in QUADRATIC_TIME)
-    deep = 20000
-    for nm in names:
-        if time.time() > budget_end:
-            R.skip("time budget: depth %d of %s not run" % (deep, nm))
-            continue
-        measure_family(R, nm, fams[nm], "chain", deep, ops, False, budget_end, only_fast=True, fast_ops=fast[nm])
-    if tier == "thorough":
-        for nm in names:
-            if time.time() > budget_end:
-                R.skip("time budget: depth 200000 of %s not run" % nm)
-                continue
-            measure_family(R, nm, fams[nm], "chain", 200000, ops, False, budget_end, only_fast=True,
-                           fast_ops=fast[nm] & set(["free_vars", "qf", "types", "theory", "size_tree", "size_depth", "size_leaves", "atoms", "aig"]))
-    chk.note("implementation measured: %d (op, family, shape) runs" % chk.cov["evaluations"])
+    from concurrent.futures import ProcessPoolExecutor
+    R = Runner(tier)
+    with ProcessPoolExecutor(max_workers=min(lib.NPROC, 12)) as ex:
+        parts = list(ex.map(family_job, [(nm, tier, small_chain, small_shared) for nm in names]))
+    for part in parts:
+        R.rows += part["rows"]
+        R.meta += part["meta"]
+        R.meta_disagree += part["disagree"]
+        for k, v in part["skipped"].items():
+            R.skipped[k] = R.skipped.get(k, 0) + v
+        for k, v in part["depth_hist"].items():
+            R.depth_hist[k] = R.depth_hist.get(k, 0) + v
+        for c in part["counts"]:
+            chk.count(c)
+        for rep, key in part["viol"]:
+            chk.violation(rep, key=key)
+    ops = _ops()
+    chk.note("implementation measured: %d (op, family, shape) runs, %d model-sized cases" % (chk.cov["evaluations"], len(R.rows)))
 
     # ---------------- correspondence with the model ------------------------------------------
     lib.clean_cases(chk.dir)
@@ -497,9 +586,14 @@ def run(tier, only=None):
                     corr_bad.append(dict(R.meta[i * per + j], what="model and implementation differ in callback order / loop iterations / stack / memo domain"))
     else:
         corr_bad.append({"error": "models/DagWalkRun.v does not compile"})
-    chk.cov["correspondence"] = {"model_cases": len(R.rows), "disagreements": len(corr_bad),
+    chk.cov["correspondence"] = {"model_cases": len(R.rows), "disagreements": len(corr_bad), "examples": corr_bad[:12],
                                  "compared": "callback invocation order, loop iterations, final stack, memoised keys; children<parent checked in Coq"}
-    chk.cov["shapes"] = {"%s(%d)" % k: v for k, v in sorted(R.depth_hist.items())}
+    chk.cov["shapes"] = {"%s(%d)" % k: v for k, v in sorted(x for x in R.depth_hist.items() if len(x[0]) == 2)}
+    deep = {}
+    for k, v in R.depth_hist.items():
+        if len(k) == 3 and k[1] >= 20000:
+            deep.setdefault("%s(%d)" % (k[0], k[1]), {})[k[2]] = v
+    chk.cov["operations_on_deep_chains"] = deep
     chk.cov["skipped"] = R.skipped
     chk.cov["operations"] = ["typecheck-at-construction", "parse-back"] + [o[0] for o in ops] + ["get_logic"]
     chk.cov["families"] = names
@@ -507,9 +601,6 @@ def run(tier, only=None):
         chk.sample(R.meta[0])
         chk.sample(R.meta[len(R.meta) // 2])
         chk.sample(R.meta[-1])
-    if corr_bad and not chk.violations and not R.nviol:
-        # a disagreement that the property-level oracle did not turn into a failing input
-        pass
     if (not ok or corr_bad) and not chk.violations:
         what = []
         if not ok:
@@ -529,9 +620,7 @@ def replay_one(famname, mode, n, opname):
     warnings.simplefilter("ignore")
     fams = _families()
     env = Environment()
-    chk = lib.Check("C20", "quick")
-    R = Runner(chk, "quick")
-    R.meta_disagree = []
+    R = Runner("quick")
     g = R.build_tapped(env, fams[famname], famname, mode, n)
     if g is not None:
         for op in _ops():
@@ -541,8 +630,10 @@ def replay_one(famname, mode, n, opname):
                     print("calls=%d pops=%d keys=%d distinct=%d" % (r["calls"], r["pops"], r["keys"], distinct_subformulas(g)))
                 if op[0] == "dagprint" and r and opname == "parse":
                     R.parse_back(env, famname, mode, n, g, r["result"])
-    print("violations: %d, disagreements: %s" % (len(chk.violations), R.meta_disagree))
-    return 1 if chk.violations else 0
+    for rep, key in R.viol:
+        print("VIOLATION (replayed) key=%s: %s" % (key, rep.get("what")))
+    print("violations: %d, disagreements with the theorem's count: %s" % (len(R.viol), R.meta_disagree))
+    return 1 if R.viol else 0
 
 
 def replay(path):
